@@ -47,7 +47,7 @@ def make_recipe(rng, tier):
     nmax = 32 if tier == "quick" else (80 if rng.random() < 0.1 else 45)
     n = nmin if rng.random() < 0.06 else int(rng.integers(nmin, max(nmin + 1, nmax)))
     kind = ["collective", "collective", "mean_changes", "noise", "small_alphabet", "spikes",
-            "piecewise_const"][int(rng.integers(7))]
+            "piecewise_const", "flat", "steps"][int(rng.integers(9))]
     X, _ = gen_data(rng, n, p, kind)
     if spec["kw"]["anomaly_score"] and spec["kw"]["anomaly_score"]["cls"] == "GaussianVarCost":
         X = X + 1e-3 * rng.standard_normal(X.shape)
